@@ -96,5 +96,38 @@ func init() {
 			}
 			s.stop()
 		}
+		// alone: a process that has handled nothing else (every other comparison above is against an answer given
+		// after some history; a response that depends on earlier requests from the very first repetition on shows here)
+		solo := 80
+		if thorough {
+			solo = 400
+		}
+		for _, i := range r.Perm(n) {
+			if solo == 0 {
+				break
+			}
+			solo--
+			s, err := startStdio()
+			if err != nil {
+				break
+			}
+			st, out, err := s.ask(reqs[i].JSON())
+			s.stop()
+			if err != nil {
+				continue
+			}
+			m := Meta{Case: i, Stage: "solo-process", Input: J{"request": reqs[i].Body}, Key: "solo" + string(reqs[i].JSON())}
+			same := verdict(st, out) == first[i]
+			if !same {
+				var prev []string
+				for j := i - 1; j >= 0 && len(prev) < 8; j-- {
+					prev = append([]string{string(reqs[j].JSON())}, prev...)
+				}
+				m.Input = J{"request": reqs[i].Body, "preceding_request_bodies_oldest_first": prev}
+				m.GoOut = J{"alone": truncate(string(out), 1500), "after_the_others": truncate(first[i], 1500)}
+			}
+			o.Oracle(m, same, "a process that handled only this request answers differently from the process that handled other requests before it")
+			o.count("solo-process")
+		}
 	}
 }
